@@ -283,7 +283,8 @@ cJSON *change_state(const struct peer *p, const cJSON *request)
 	cJSON_Delete(e->value);
 	e->value = value_copy;
 	if (unlikely(notify_fetchers(e, "change") != 0)) {
-		return create_error_response_from_request(p, request, INTERNAL_ERROR, "could not notify fetching peer", path);
+		/* The value is already changed; a fetching peer that cannot be notified is not the owner's error. */
+		log_peer_err(p, "Could not notify all fetching peers about change of %s\n", path);
 	}
 
 	return create_success_response_from_request(p, request);
